@@ -15,15 +15,40 @@
 (* (table, depth) pairs.                                                   *)
 (***************************************************************************)
 EXTENDS Integers, Sequences, FiniteSets, TLC
-CONSTANTS Threads, Keys, MaxCalls, Torn, UseOnce, FastPath
+CONSTANTS
+  \* @type: Set(Str);
+  Threads,
+  \* @type: Set(Str);
+  Keys,
+  \* @type: Int;
+  MaxCalls,
+  \* @type: Bool;
+  Torn,
+  \* @type: Bool;
+  UseOnce,
+  \* @type: Bool;
+  FastPath
 None == 0
 PartialStore == -1
 TornRead == -1
 Unreachable == -2
-VARIABLES slot,    \* per key: None | PartialStore (a torn store in progress) | the id (>= 1) of the published construction
-          once,    \* per key: "inc" | "run" | "done"
-          built,   \* per key: number of constructions started
-          pc, arg, mine, ret, calls
+VARIABLES
+  \* @type: Str -> Int;
+  slot,    \* per key: None | PartialStore (a torn store in progress) | the id (>= 1) of the published construction
+  \* @type: Str -> Str;
+  once,    \* per key: "inc" | "run" | "done"
+  \* @type: Str -> Int;
+  built,   \* per key: number of constructions started
+  \* @type: Str -> Str;
+  pc,
+  \* @type: Str -> Str;
+  arg,
+  \* @type: Str -> Int;
+  mine,
+  \* @type: Str -> Int;
+  ret,
+  \* @type: Str -> Int;
+  calls
 vars == <<slot, once, built, pc, arg, mine, ret, calls>>
 Init == /\ slot = [k \in Keys |-> None] /\ once = [k \in Keys |-> "inc"] /\ built = [k \in Keys |-> 0]
         /\ pc = [t \in Threads |-> "idle"] /\ arg = [t \in Threads |-> CHOOSE k \in Keys : TRUE]
